@@ -41,7 +41,7 @@ META = dict(
     bound=dict(
         quick="scale/energy/vector edges: all one-atom compounds and all pairs over the 32-atom class alphabet x 9 "
               "count pairs, 2 densities, 7 global wavelengths + selected table points; structure edges: all fragment "
-              "multisets of size <= 3 over 9 atoms and of size 4 over 5 atoms, all permutations x bracketings x "
+              "multisets of size <= 3 over 9 atoms and of size 4 over 3 atoms, all permutations x bracketings x "
               "group multipliers {1,2} x {string, nested list, dict}; conversions on 40 log-spaced points",
         thorough="as quick with every table node/midpoint in the energy edge, structure edges for all multisets of "
                  "size <= 4 over 9 atoms"),
@@ -63,7 +63,7 @@ COUNT_C = (2.0, 0.25, 7.0)
 EDGE_DENSITIES = (1.0, 2.33)
 NONNEG = ("rho_im", "rho_inc", "xs_coh", "xs_abs", "xs_inc", "penetration")
 A9 = c03.K9
-A5 = (("H", 0, 0), ("H", 2, 0), ("O", 0, 0), ("Gd", 157, 0), ("O", 18, -2))
+A3 = (("H", 0, 0), ("Gd", 157, 0), ("O", 18, -2))
 POS_COUNTS = (1, 2, 0.5, 3)
 
 
@@ -693,7 +693,7 @@ def structure_items(quick):
     if quick:
         for n in (1, 2, 3):
             items += multisets(A9, n)
-        items += multisets(A5, 4)
+        items += multisets(A3, 4)
     else:
         for n in (1, 2, 3, 4):
             items += multisets(A9, n)
@@ -702,7 +702,7 @@ def structure_items(quick):
 
 def run(ctx):
     data = rn.NeutronData()
-    for k in K + A9 + A5:
+    for k in K + A9 + A3:
         if data.has_data(k) is not True:
             raise MachineryError("alphabet atom %r has no data" % (k,))
     tier = ctx.tier
